@@ -53,11 +53,23 @@ def _system_token(system: System) -> tuple[int, int]:
     return token
 
 
-def _cache_key_func(system: System, method: Callable) -> tuple[str, tuple[int, int]]:
-    """Construct cache key for a given system and method pair."""
+def _cache_key_func(
+    system: System,
+    method: Callable,
+    *,
+    depends_on_metric: bool = False,
+) -> tuple[str, tuple[int, ...]]:
+    """Construct cache key for a given system and method pair.
+
+    For methods with values depending on a (fixed) metric attribute of the system which
+    may be reassigned, the key additionally includes a version number of the metric.
+    """
     if not isinstance(method, str):
         method = method.__name__
-    return (f"{type(system).__name__}.{method}", _system_token(system))
+    token = _system_token(system)
+    if depends_on_metric:
+        token = (*token, getattr(system, "_metric_version", 0))
+    return (f"{type(system).__name__}.{method}", token)
 
 
 def _copy_if_state_variable(value: Any, state: ChainState) -> Any:  # noqa: ANN401
@@ -83,6 +95,7 @@ def _copy_if_state_variable(value: Any, state: ChainState) -> Any:  # noqa: ANN4
 
 def cache_in_state(
     *depends_on: str,
+    depends_on_metric: bool = False,
 ) -> Callable[[SystemStateMethod], SystemStateMethod]:
     """Memoizing decorator for system methods.
 
@@ -102,12 +115,15 @@ def cache_in_state(
             variables the value returned by the method depends on, e.g. `pos` or `mom`,
             such that the cache in the state object is correctly cleared when the value
             of any of these variables (attributes) of the state object changes.
+        depends_on_metric: Whether the value returned by the method depends on a
+            `metric` attribute of the system which may be reassigned, in which case
+            values cached before the metric was last assigned are not used.
     """
 
     def cache_in_state_decorator(method: SystemStateMethod) -> SystemStateMethod:
         @wraps(method)
         def wrapper(self: System, state: ChainState) -> ArrayLike | ScalarLike:
-            key = _cache_key_func(self, method)
+            key = _cache_key_func(self, method, depends_on_metric=depends_on_metric)
             if key not in state._cache:
                 for dep in depends_on:
                     state._dependencies[dep].add(key)
